@@ -45,12 +45,18 @@ type PathState struct {
 	Effects []Effect
 	Blocks  []int // block indices visited, for reports
 	edges   map[[2]int]int
+	// Eq records the outcome of equality comparisons on non-boolean operands, keyed by the operand pair, so that a
+	// later `x != c` is decided by an earlier `x == c` on the same path
+	Eq map[[2]string]AB
 }
 
 func (s *PathState) clone() *PathState {
-	n := &PathState{Vals: make(map[ssa.Value]AB, len(s.Vals)), edges: make(map[[2]int]int, len(s.edges))}
+	n := &PathState{Vals: make(map[ssa.Value]AB, len(s.Vals)), edges: make(map[[2]int]int, len(s.edges)), Eq: make(map[[2]string]AB, len(s.Eq))}
 	for k, v := range s.Vals {
 		n.Vals[k] = v
+	}
+	for k, v := range s.Eq {
+		n.Eq[k] = v
 	}
 	for k, v := range s.edges {
 		n.edges[k] = v
@@ -90,6 +96,17 @@ func (s *PathState) Val(v ssa.Value) AB {
 			}
 		}
 	case *ssa.BinOp:
+		if x.Op == token.EQL || x.Op == token.NEQ {
+			if e, ok := s.Eq[eqKey(x.X, x.Y)]; ok && e != Unk {
+				if x.Op == token.EQL {
+					return e
+				}
+				if e == True {
+					return False
+				}
+				return True
+			}
+		}
 		if b, ok := x.X.Type().Underlying().(*types.Basic); ok && b.Info()&types.IsBoolean != 0 {
 			l, r := s.Val(x.X), s.Val(x.Y)
 			if l != Unk && r != Unk {
@@ -134,7 +151,9 @@ type PathRules struct {
 	OnEdge func(s *PathState, cond ssa.Value, taken bool)
 	// OnExit is called at every Return (ret != nil) or Panic exit.
 	OnExit func(s *PathState, ret *ssa.Return, pan *ssa.Panic)
-	LoopBound int
+	// OnBackEdge is called before a loop back edge is taken; returning false ends the path there.
+	OnBackEdge func(s *PathState, from, to *ssa.BasicBlock) bool
+	LoopBound  int
 	MaxPaths  int
 }
 
@@ -169,6 +188,11 @@ func ExplorePaths(fn *ssa.Function, rules PathRules) PathResult {
 					if _, isPhi := in.(*ssa.Phi); !isPhi {
 						delete(s.Vals, v)
 					}
+					for k := range s.Eq {
+						if k[0] == v.Name() || k[1] == v.Name() {
+							delete(s.Eq, k)
+						}
+					}
 				}
 			}
 			// phis first, evaluated simultaneously w.r.t. the incoming edge
@@ -192,6 +216,11 @@ func ExplorePaths(fn *ssa.Function, rules PathRules) PathResult {
 				}
 				for k, v := range upd {
 					s.Vals[k] = v
+					for ek := range s.Eq {
+						if ek[0] == k.Name() || ek[1] == k.Name() {
+							delete(s.Eq, ek) // the phi holds a new value now
+						}
+					}
 				}
 			}
 		}
@@ -236,6 +265,9 @@ func ExplorePaths(fn *ssa.Function, rules PathRules) PathResult {
 					e := [2]int{b.Index, b.Succs[succ].Index}
 					if b.Succs[succ].Dominates(b) {
 						// back edge: bounded
+						if rules.OnBackEdge != nil && !rules.OnBackEdge(st, b, b.Succs[succ]) {
+							return
+						}
 						if st.edges[e] >= rules.LoopBound {
 							return
 						}
@@ -247,6 +279,9 @@ func ExplorePaths(fn *ssa.Function, rules PathRules) PathResult {
 						st.Vals[x.Cond] = abOf(val)
 						// simple refinement: cond is !y  or  y == const
 						refine(st, x.Cond, val)
+					}
+					if bo, ok := x.Cond.(*ssa.BinOp); ok && (bo.Op == token.EQL || bo.Op == token.NEQ) {
+						st.Eq[eqKey(bo.X, bo.Y)] = abOf((bo.Op == token.EQL) == val)
 					}
 					if rules.OnEdge != nil {
 						rules.OnEdge(st, x.Cond, val)
@@ -266,6 +301,9 @@ func ExplorePaths(fn *ssa.Function, rules PathRules) PathResult {
 			case *ssa.Jump:
 				e := [2]int{b.Index, b.Succs[0].Index}
 				if b.Succs[0].Dominates(b) {
+					if rules.OnBackEdge != nil && !rules.OnBackEdge(s, b, b.Succs[0]) {
+						return
+					}
 					if s.edges[e] >= rules.LoopBound {
 						return
 					}
@@ -298,7 +336,7 @@ func ExplorePaths(fn *ssa.Function, rules PathRules) PathResult {
 			}
 		}
 	}
-	run(&PathState{Vals: map[ssa.Value]AB{}, edges: map[[2]int]int{}}, fn.Blocks[0], nil, 0)
+	run(&PathState{Vals: map[ssa.Value]AB{}, edges: map[[2]int]int{}, Eq: map[[2]string]AB{}}, fn.Blocks[0], nil, 0)
 	return res
 }
 
@@ -337,3 +375,13 @@ func refine(s *PathState, cond ssa.Value, val bool) {
 
 // BlockPath renders the visited blocks of a path.
 func (s *PathState) BlockPath() string { return fmt.Sprint(s.Blocks) }
+
+
+func eqOperand(v ssa.Value) string {
+	if c, ok := v.(*ssa.Const); ok {
+		return "const:" + c.String()
+	}
+	return v.Name()
+}
+
+func eqKey(x, y ssa.Value) [2]string { return [2]string{eqOperand(x), eqOperand(y)} }
